@@ -1,6 +1,7 @@
 package centrifuge
 
 import (
+	"runtime"
 	"context"
 	"time"
 
@@ -218,6 +219,12 @@ func vh_C10_unsubscribe_race() {
 		done = true
 	}()
 	vPreempt(vParam("c10_preempt", 1))
+	if vParam("c10_event_first", 1) == 1 && vChoice("broadcast_starts_first", 2) == 1 {
+		// the broadcast gets a head start (a voluntary switch, not a
+		// preemption): the preemption budget is then spent inside the broadcast,
+		// i.e. the whole unsubscribe runs while the broadcast is in flight
+		runtime.Gosched()
+	}
 	e.unsubscribe()
 	vPreempt(0)
 	e.flush()
@@ -230,7 +237,11 @@ func vh_C10_unsubscribe_race() {
 	vAssert(t.endAt > t.startAt, "unsubscribe-after-subscribe")
 	clientSide := sub == vSubClientPlain || sub == vSubClientPositioned
 	vKnown("C10-push-after-unsubscribe-reply-without-queue", rwq && clientSide)
-	vKnown("C10-batched-offset0-publication-after-unsubscribe", batching != 0 && ev == vEvPubNoOffset)
+	// any channel push that passed its subscription check before the
+	// unsubscribe can be added to the per-channel batch writer after the
+	// unsubscribe's delWriter (first seen with offset-0 publications; with the
+	// broadcast starting first also joins, leaves and positioned publications)
+	vKnown("C10-batched-offset0-publication-after-unsubscribe", batching != 0)
 	for _, at := range t.pushAt {
 		vAssert(at > t.startAt, "no-channel-push-before-subscribe-reply")
 		vAssert(at < t.endAt, "no-channel-push-after-unsubscribe-reply")
